@@ -58,6 +58,9 @@ CHECKS["C20"] = ("model_checking", "bounded-exhaustive exploration of the real c
 CHECKS["C15"] = ("fault_enumeration", "exhaustive enumeration of (old config x new file content incl. every failure kind x request kind x history before x idle gap x continuation) on real files through the real Kanata::new / handle_time_ticks (virtual clock hook) / do_live_reload, driven by a transcription of the processing loop; differential oracles: failed reload vs a twin without reload keys, successful reload vs a fresh Kanata::new of the new file; message-channel and timing obligations",
   "For every enumerated case a reload that cannot load the file leaves behaviour identical to never having asked; a reload that can is applied exactly when allowed, announces itself once with the active layer, leaves nothing pressed, and afterwards the instance is indistinguishable (on the continuations) from a fresh start of the new file.",
   "continuations are bounded (<= 2 steps of 4 kinds); permission errors not producible; H3 clock injection checked per call", "DESIGN.md §4 C15")
+CHECKS["C16"] = ("translation_validation", "exhaustive enumeration of meaning-preserving rewrites (alias, var, zero-arg and identity templates, if-equal template, include, platform, deflayermap) at every applicable site of every program of the universe (bound 1) and every pair of sites (bound 2), each rewritten program parsed by the real parser and compared field by field with the original's parsed tables, plus lock-step execution of both on all physically consistent histories of depth 3 (thorough 4)",
+  "For every rewritten program explored: accepted iff the original is, identical parsed tables (layer cells, key outputs, mapped keys, overrides, sequences, virtual keys, options), and identical outputs on every explored history.",
+  "behavioural comparison bounded to depth 3/4 (tables compared in full); bound-2 compositions only for programs up to 60 (thorough 90) nodes", "DESIGN.md §4 C16")
 NOT_YET = {}
 props = [json.loads(l) for l in open('/verif/properties.jsonl')]
 hooks_commits = subprocess.run(["git","-C","/repo","log","--format=%h %s"],capture_output=True,text=True).stdout.splitlines()
